@@ -209,3 +209,15 @@ def c18(work, tier, seed, replay):
 def c20(work, tier, seed, replay):
     import fam_api as fa
     return fa.c20(work, tier, seed)
+
+
+@check("C13")
+def c13(work, tier, seed, replay):
+    import fam_oidc as fo
+    return fo.c13(work, tier, seed)
+
+
+@check("C12")
+def c12(work, tier, seed, replay):
+    import fam_oidc as fo
+    return fo.c12(work, tier, seed)
